@@ -682,9 +682,9 @@ class Evaluator:
             targets = [m] if m is not None else []
         # evaluate arguments once to see whether the buffer is passed
         passes_buffer = any(isinstance(a, ast.Name) and st.env.get(a.id, ("",))[0] == "buffer" for a in e.args)
-        from .inventory import KNOWN_FUNCS
+        from .inventory import KNOWN_FUNCS, is_known
         if len(targets) == 1 and (passes_buffer or targets[0].name in ("read_value", "read")
-                                  or (targets[0].qualname not in KNOWN_FUNCS and not targets[0].is_lambda and depth < 6)):
+                                  or (not is_known(targets[0], self.prog) and not targets[0].is_lambda and depth < 6)):
             bound = isinstance(f, ast.Attribute) and not (isinstance(f.value, ast.Name) and self.prog.lookup(fn.module, f.value.id) and self.prog.lookup(fn.module, f.value.id)[0] == "class")
             yield from self._inline(targets[0], e, st, fn, depth, bound_self=bound and targets[0].cls is not None and not targets[0].is_static)
             return
